@@ -29,7 +29,7 @@ func init() {
 
 func c01r1(c *Ctx) {
 	r := getChainRoles(c.P)
-	for _, f := range c.P.PkgFuncs("chain") {
+	for _, f := range r.vs.Roots {
 		for _, fn := range append([]*ir.Func{f}, f.Lits...) {
 			g := fn.Graph()
 			for _, n := range g.Nodes {
@@ -42,7 +42,7 @@ func c01r1(c *Ctx) {
 					}
 					c.VisitGraph(fn)
 					ob := c.Ob(fn, "tipState-written-after-store-step", n.Pos())
-					if fn != r.applyTip && fn != r.revertTip {
+					if fn.Base != r.applyTip && fn.Base != r.revertTip {
 						ob.Bad(nil, "Manager.tipState is assigned at %s outside the apply/revert steps: the reported tip can diverge from what the store applied", c.P.Pos(n.Pos()))
 						continue
 					}
@@ -179,8 +179,13 @@ func c01r3(c *Ctx) {
 			}
 			// every return reachable from the failing edge carries an error
 			all := f.ReachableFromEdges(gc.chk.Fail, nil)
+			var from []*cfgx.Visit
+			for _, e := range gc.chk.Fail {
+				from = append(from, cfgx.StartAfter(e, 0))
+			}
+			kinds := f.ReturnKindsFrom(from) // per path: the error set by a (deferred) rollback wrapper is the one returned
 			for _, ret := range g.Returns() {
-				if v, ok := all[ret]; ok && f.ClassifyReturn(ret) != ir.RetError {
+				if v, ok := all[ret]; ok && kinds[ret]&^(1<<uint(ir.RetError)) != 0 {
 					// is it reachable from the failing edge without crossing the success edge again? (loops do not exist here)
 					ob.Bad(c.Witness(v), "after the reorg at %s failed, the return at %s does not carry an error: the caller is told the submission succeeded", c.P.Pos(gc.call.Pos()), c.P.Pos(ret.Pos()))
 					bad = true
@@ -196,7 +201,7 @@ func c01r3(c *Ctx) {
 
 func c01r4(c *Ctx) {
 	r := getChainRoles(c.P)
-	f := r.applyTip
+	f := r.view(r.applyTip)
 	g := f.Graph()
 	c.VisitGraph(f)
 	for _, apply := range f.CallsTo(false, r.storeApply) {
@@ -394,7 +399,7 @@ func c01r7(c *Ctx) {
 // c01r8: the apply step only applies a block whose parent is the current tip.
 func c01r8(c *Ctx) {
 	r := getChainRoles(c.P)
-	f := r.applyTip
+	f := r.view(r.applyTip)
 	g := f.Graph()
 	c.VisitGraph(f)
 	var blk types.Object
